@@ -17,7 +17,7 @@ def optenv(e): return ["-"] if e is None else ["+"] + env(e)
 
 def export(x):
     if isinstance(x, str): return [hexs(x), "-"]
-    (k, v), = x.items()
+    k, v = list(x.items())[-1]        # a map entry with several keys keeps the last one (utils.rs)
     return [hexs(k), hexs(v)]
 
 def rule(r):
